@@ -186,6 +186,20 @@ NEUTRAL = [
                             ),""", """                                query_computing.clone(),
                                 { let strict = pedantic_repair; strict },
                             ),""")]),
+    dict(id="N24-lru-move-with-mem-replace-done-right", file=ST + "tiny_lfu/lru.rs",
+         edits=[("""        self.list.unlink(*node_ptr, *region);
+        self.list.push_head(*node_ptr, new_region);
+
+        self.list.lens[new_region as usize] += 1;
+        self.list.lens[*region as usize] -= 1;
+
+        *region = new_region;""", """        let old_region = std::mem::replace(region, new_region);
+
+        self.list.unlink(*node_ptr, old_region);
+        self.list.push_head(*node_ptr, new_region);
+
+        self.list.lens[new_region as usize] += 1;
+        self.list.lens[old_region as usize] -= 1;""")]),
     # documented limitation (DESIGN 11.4b): moving an anchored statement into a new helper function makes the rule lose
     # its anchor; it then FAILS CLOSED with an `anchors missing` report instead of deciding.  Kept to watch that this
     # stays a coverage report and never turns into a wrong diagnosis.
